@@ -1,5 +1,6 @@
 """C02 — MT round trip is stable."""
 from .common import Report
+from . import emit
 from . import accept
 from . import grules, roundtrip, headers, numdate
 
@@ -33,4 +34,7 @@ def run(F, tier):
                         "serialiser_appends": ["%s:%s" % (".".join(a.path or ("?",)), a.kind) for a in tm.w.appends][:30]})
     accept.u7(rep, F, "fields")
     accept.u7(rep, F, "headers")
+    emit.e1(rep, F, "fields")
+    emit.e1(rep, F, "headers")
+    emit.e1(rep, F, "assembly")
     return rep
